@@ -58,13 +58,20 @@ def generate(seeds=(1, 2, 3), tier='quick'):
     from neurodiffeq.conditions import EnsembleCondition, NoCondition
     g = GenFile(PID)
     stats = {}
-    for tup in tuples(tier, seeds[0]):
+    tl = tuples(tier, seeds[0])
+    # sub-conditions that still carry an output-unit binding from an earlier (deprecated) set_impose_on: inside an ensemble the
+    # position decides, column i belongs to sub-condition i
+    stale = [(t, True) for t in tl if len(t) >= 2][:2 if tier == 'quick' else 12]
+    for tup, stale_units in [(t, False) for t in tl] + stale:
         k = len(tup)
-        name = 'ens_' + '_'.join(tup)
+        name = ('ensu_' if stale_units else 'ens_') + '_'.join(tup)
 
-        def scen(w, tup=tup, k=k):
+        def scen(w, tup=tup, k=k, stale_units=stale_units):
             t = w.coord('t')
             conds = [make_cond(kd, w, i) for i, kd in enumerate(tup)]
+            if stale_units:
+                for i, c in enumerate(conds):
+                    c.set_impose_on((i + 1) % k)
             return EnsembleCondition(*conds).enforce(w.net('N', 1, k), t)
         sw, outs, st = tie_check(scen, seeds[:2], n_rows=(3,))
         stats[name] = st
@@ -190,7 +197,7 @@ def runtime_checks():
     from neurodiffeq.conditions import DirichletBVP2D
     zero = lambda z: z * 0
     for n_out in (2, 3):
-        for j in range(n_out):
+        for j in list(range(n_out)) + [-1]:        # -1: the last unit, in Python's usual indexing
             conds = [('IVP', IVP(0., 1.), 1), ('DirichletBVP', DirichletBVP(0., 0., 1., 1.), 1),
                      ('DoubleEndedBVP1D-dn', DoubleEndedBVP1D(0., 1., x_min_val=0., x_max_prime=1.), 1),
                      ('DoubleEndedBVP1D-nn', DoubleEndedBVP1D(0., 1., x_min_prime=0., x_max_prime=1.), 1),
@@ -206,6 +213,11 @@ def runtime_checks():
                     out = c.enforce(net, *xs)
                     if tuple(out.shape) != (4, 1):
                         bad.append(dict(case='ith_unit output width', condition=cname, unit=j, outputs=n_out, shape=list(out.shape)))
+                    elif j == -1:
+                        c.ith_unit = n_out - 1
+                        ref = c.enforce(net, *xs)
+                        if not torch.equal(out, ref):
+                            bad.append(dict(case='ith_unit = -1 does not select the last output unit', condition=cname, outputs=n_out))
                 except Exception as e:
                     bad.append(dict(case='ith_unit enforce raised', condition=cname, unit=j, outputs=n_out, error=f'{type(e).__name__}: {e}'))
     one = lambda t: t
@@ -239,12 +251,19 @@ def search(seed, tier):
         t = rw.coord('t')
         conds = [make_cond(kd, rw, i) for i, kd in enumerate(tup)]
         net = FCNN(1, k, hidden_units=(6,))
+        stale = k >= 2 and rng.random() < 0.5
+        if stale:           # output-unit bindings left on the sub-conditions by an earlier set_impose_on: the position decides
+            import warnings
+            with warnings.catch_warnings():
+                warnings.simplefilter('ignore')
+                for i, c in enumerate(conds):
+                    c.set_impose_on((i + 1) % k)
         out = EnsembleCondition(*conds).enforce(net, t)
         raw = net(t)
         for i, c in enumerate(conds):
             want = c.parameterize(raw[:, i].view(-1, 1), t)
             if not torch.allclose(out[:, i:i + 1], want, rtol=1e-12, atol=1e-12):
-                found.append(dict(case='ensemble-column', tuple=tup, column=i, got=out[:, i].tolist(), want=want.reshape(-1).tolist()))
+                found.append(dict(case='ensemble-column', tuple=tup, column=i, sub_conditions_carry_stale_unit_binding=stale, got=out[:, i].tolist(), want=want.reshape(-1).tolist()))
     for n_in in range(1, 5):
         for n_out in range(1, 5):
             net = FCNN(n_in, n_out, hidden_units=(4,))
